@@ -335,9 +335,9 @@ fn typed_req<B: BumpAllocatorTyped + ?Sized>(b: &B, req: &Req, try_: bool, seed:
                 let r = b.shrink_slice::<T>(p, *n, m);
                 let q = r.unwrap_or(p);
                 let addr = q.cast::<u8>().as_ptr() as usize;
-                // the surviving prefix, and whether the call reported a (possibly equal) new pointer
-                let mut bytes = std::slice::from_raw_parts(addr as *const u8, m * sz).to_vec();
-                bytes.push(r.is_some() as u8);
+                // the surviving prefix at the effective pointer (`None` means "unchanged", which an entry point may
+                // also express as `Some(same pointer)`)
+                let bytes = std::slice::from_raw_parts(addr as *const u8, m * sz).to_vec();
                 Out { ok: true, off: if m * sz == 0 { None } else { Some(addr - base) }, bytes }
             }
         }),
